@@ -202,7 +202,7 @@ prop( 'C07', [ 'A-OFFSETS', 'P-ORDER', 'P-EACH', 'P-CLOSURE', 'R-LOCK-5', 'R-LOC
       not_decided='equality of each member\'s reply with its standalone reply, and of the resulting tag state (dynamic).',
       technique='linear normalisation of offset arithmetic; iteration/accumulation idiom pairing; per-iteration effect counting on the CFG' )
 
-prop( 'C08', [ 'G-PROGRESS', 'G-BOUND', 'G-REF', 'R-PROGRESS', 'R-LIMIT', 'E-CONTAIN', 'R-ISO', 'S-STATUS', 'W-ATTR', 'D-VALIDATE', 'T-ALLOWED', 'G-PRIMS', 'G-INIT', 'P-ACT', 'P-CLOSURE', 'G-EXACT', 'P-ONCE', 'U-NULLADDR', 'G-PEEK', 'W-ASSERT', 'R-REENTRANT', 'P-ONE', 'W-ITERDEL' ],
+prop( 'C08', [ 'G-PROGRESS', 'G-BOUND', 'G-REF', 'R-PROGRESS', 'R-LIMIT', 'E-CONTAIN', 'R-ISO', 'S-STATUS', 'W-ATTR', 'D-VALIDATE', 'T-ALLOWED', 'G-PRIMS', 'G-INIT', 'P-ACT', 'P-CLOSURE', 'G-EXACT', 'P-ONCE', 'U-NULLADDR', 'G-PEEK', 'W-ASSERT', 'R-REENTRANT', 'P-ONE', 'W-ITERDEL', 'G-USEND' ],
       decides='P-ACT / P-CLOSURE (no tag is altered except through a COMPLETE request): the server hands a frame to the processor only after the framing engine finished (no exit from the parse loop on EOF), and a member of a Multiple Service Packet joins the list of requests to execute only after its own parse was asserted terminal.  termination-shape, containment and no-corruption clauses.  G-PROGRESS: in every extracted grammar level (all 25 registered '
               'service machines and 28 stand-alone machines) there is no cycle of non-consuming states, every data-counted repeat consumes '
               '>= 1 symbol per cycle, every sub-machine has a terminal state; G-BOUND/G-REF: every unbounded consumer lies inside a limit '
